@@ -2,6 +2,7 @@ import L4.Matchers.Small
 import L4.Matchers.Winbox
 import L4.Matchers.Wireguard
 import L4.Matchers.Rdp
+import L4.Matchers.More
 import L4.Drv.Tok
 /-! driver for `match` cases -/
 namespace L4.Drv
@@ -38,7 +39,51 @@ def doMatch : P String := do
     let ips' : List Rdp.Cidr4 := ips.map fun (a, b) => ({ addr := a, bits := b } : Rdp.Cidr4)
     let cfg : Rdp.Cfg := { cookieHash := chash, hasCookieRe := hasCre, cookieRe := cre, cookieIPs := ips', cookieIPsV6only := v6 == 1, cookiePorts := ports, customInfo := cinfo, hasCustomRe := hasIre, customRe := ire }
     return (Rdp.matcher cfg bs).str
+  if name == "dns" then
+    let ha ← nat; let hd ← nat; let pa ← nat; let dd ← nat
+    let _u ← tok
+    let ok ← nat
+    let um : Option DnsMsg ← if ok == 1 then do
+        let len ← nat; let nq ← nat; let resp ← nat; let rc ← nat; let z ← nat
+        let qs ← rep nq do
+          let cf ← nat; let tf ← nat; let de ← nat; let al ← nat
+          return ({ classFound := cf == 1, typeFound := tf == 1, denied := de == 1, allowed := al == 1 } : DnsQ)
+        pure (some ({ len := len, qs := qs, response := resp == 1, rcodeOk := rc == 1, zero := z == 1 } : DnsMsg))
+      else pure none
+    let tr ← tok
+    let bs := unhexTok (← tok)
+    let cfg : DnsCfg := { hasAllow := ha == 1, hasDeny := hd == 1, preferAllow := pa == 1, defaultDeny := dd == 1 }
+    return (if tr == "udp" then dnsUdp cfg (fun _ => um) bs else dnsTcp cfg (fun _ => um) bs).str
+  if name == "http" then
+    let _tr ← tok
+    let bs := unhexTok (← tok)
+    -- the request parser is a parameter: `*` marks verdicts the model does not determine
+    match isHttp bs with
+    | .ok (false, true) => return "*"
+    | _ => return (http (fun _ => .yes) bs).str
+  if name == "clock" then
+    let a ← nat; let b ← nat; let now ← nat
+    return (clock a b now).str
+  if name == "ip" then
+    let n ← nat
+    let addrTok : P (Bool × Nat) := do
+      let is6 ← nat
+      let t ← tok
+      return (is6 == 1, if t.startsWith "x" then beNat (unhex (t.drop 1).toString) else t.toNat!)
+    let ps ← rep n do
+      let (is6, a) ← addrTok
+      let bits ← nat
+      return ({ is6 := is6, addr := a, bits := bits } : Prefix)
+    let (is6, ip) ← addrTok
+    return (ipMatch ps is6 ip).str
+  if name == "openvpn" then
+    let pl ← nat; let au ← nat; let cr ← nat; let c2 ← nat
+    let tr ← tok
+    let bs := unhexTok (← tok)
+    let cfg : OvpnCfg := { plain := pl == 1, auth := au == 1, crypt := cr == 1, crypt2 := c2 == 1 }
+    return ((openvpn cfg (tr == "tcp")).run bs).str
   let prog : Prog ← match name with
+    | "tls" => pure (tls fun _ => true)
     | "winbox" => do
       let std ← nat; let rom ← nat
       let user := unhexTok (← tok)
